@@ -404,6 +404,17 @@ func c12One(c c12Case, rng *Rng) string {
 				raw = conn
 			case "tls":
 				raw, err = net.DialTimeout("tcp", addr, 5*time.Second)
+				if err == nil && hold && cl.msgs == "" && r.Bool() {
+					// connected, but the TLS handshake is never started (or stalls after a few
+					// bytes of the ClientHello): the collector holds a connection that has not
+					// said anything yet - Stop must deal with it like with any other
+					if r.Bool() {
+						raw.Write([]byte{0x16, 0x03, 0x01, 0x02, 0x00, 0x01})
+					}
+					<-release
+					raw.Close()
+					return
+				}
 				if err == nil {
 					tc := tls.Client(raw, &tls.Config{RootCAs: c12Cert.rootPool, ServerName: "127.0.0.1", MinVersion: tls.VersionTLS12})
 					raw.SetDeadline(time.Now().Add(20 * time.Second))
